@@ -598,10 +598,11 @@ def cfgStep (env : Env) (ws : WS) : Op → WS × Option (Fn × Option PF) × Str
       | .error e => (ws, none, "panic:" ++ e)
       | .ok (ws1, w) =>
         let r := whenReturns env.sig { ws1 with when := some w } true seq
-        match r.1, env.kind with
-        | some e, .patch => (r.2, none, "panic:" ++ e)                        -- `whens` already assigned m.when  (mocker.go:531)
-        | some e, .iface => ({ r.2 with when := none }, none, "panic:" ++ e)  -- m.when not yet assigned        (iface.go:177)
-        | none, _ => (r.2, some (whenReq env), "ok")
+        -- `when.Returns(values...)` validates on the local When BEFORE it is recorded: mocker.go:332/:588 (then `whens`,
+        -- `doApply`), iface.go:175 (then apply, `m.when = when`).  A rejected first Returns leaves m.when nil.
+        match r.1 with
+        | some e => ({ r.2 with when := none }, none, "panic:" ++ e)
+        | none => (r.2, some (whenReq env), "ok")
   | _ => (ws, none, "bad-op")
 
 def outTok (s : St) (o : Out) (args : List Val) : String :=
